@@ -293,14 +293,68 @@ fn enc(c: u32, buf: &mut [u8], at: usize) -> usize {
     }
 }
 
+/// Models of `String::with_capacity`, `String::push` and `String::push_str` used as Kani stubs.
+/// std's own versions make the buffer capacity a symbolic value as soon as one `push` sits under a
+/// symbolic branch; every later growth then allocates a symbolic number of bytes and the SAT back end runs
+/// out of memory (measured: 21 GB and 400 s for escape() of ONE two-byte character, in a crate that
+/// contains nothing else).  The models keep the capacity concrete: a fixed 32-byte buffer that is never
+/// re-allocated, with an ASSERTION (not an assumption) that it is never exceeded, and the same bytes
+/// appended.  Capacity is not observable through the API under test; std is trusted, the repository's
+/// functions are the code under test.
+pub const VERIF_STRING_CAP: usize = 32;
+
+pub fn stub_string_with_capacity(_n: usize) -> String {
+    String::from_utf8(Vec::with_capacity(VERIF_STRING_CAP)).unwrap()
+}
+
+#[inline(never)]
+fn verif_append(s: &mut String, b: u8) {
+    let v = unsafe { s.as_mut_vec() };
+    let len = v.len();
+    assert!(len < v.capacity(), "verification model: fixed String capacity exceeded");
+    unsafe {
+        v.as_mut_ptr().add(len).write(b);
+        v.set_len(len + 1);
+    }
+}
+
+pub fn stub_string_new() -> String {
+    String::from_utf8(Vec::with_capacity(VERIF_STRING_CAP)).unwrap()
+}
+
+pub fn stub_string_push_str(s: &mut String, t: &str) {
+    let tb = t.as_bytes();
+    let mut i = 0;
+    while i < tb.len() {
+        verif_append(s, tb[i]);
+        i += 1;
+    }
+}
+
+pub fn stub_string_push(s: &mut String, c: char) {
+    let mut b = [0u8; 4];
+    let n = enc(c as u32, &mut b, 0);
+    verif_append(s, b[0]);
+    if n >= 2 {
+        verif_append(s, b[1]);
+    }
+    if n >= 3 {
+        verif_append(s, b[2]);
+    }
+    if n >= 4 {
+        verif_append(s, b[3]);
+    }
+}
+
+/// escape() on a string of N arbitrary scalar values.
 fn c18_body<const N: usize>() {
-    let mut inb = [0u8; 8];
-    let mut want = [0u8; 12];
+    let mut inb = [0u8; 12];
+    let mut want = [0u8; 16];
     let mut il = 0usize;
     let mut wl = 0usize;
     let mut i = 0;
-    let mut any_syntax = false;
-    let mut any_multi = false;
+    let mut nsyntax = 0usize;
+    let mut nmulti = 0usize;
     while i < N {
         let c: u32 = kani::any();
         kani::assume(c <= 0x10FFFF && !(c >= 0xD800 && c <= 0xDFFF));
@@ -308,10 +362,10 @@ fn c18_body<const N: usize>() {
         if is_syntax(c) {
             want[wl] = 0x5C;
             wl += 1;
-            any_syntax = true;
+            nsyntax += 1;
         }
         if c >= 0x80 {
-            any_multi = true;
+            nmulti += 1;
         }
         wl += enc(c, &mut want, wl);
         i += 1;
@@ -319,31 +373,47 @@ fn c18_body<const N: usize>() {
     let s: &str = unsafe { core::str::from_utf8_unchecked(&inb[..il]) };
     let out = escape(s);
     let ob = out.as_bytes();
-    assert!(ob.len() == wl);
-    let mut k = 0;
-    while k < 12 {
-        if k < wl {
-            assert!(ob[k] == want[k]);
-        }
-        k += 1;
+    assert!(ob.len() == wl, "escape(s) has the wrong length");
+    // unrolled by hand: the unwind bound then only has to cover the loop of escape() itself
+    macro_rules! same_at {
+        ($($k:expr),*) => {$(
+            if $k < wl {
+                assert!(ob[$k] == want[$k], "escape(s) differs from s with a backslash before each syntax character");
+            }
+        )*};
     }
-    kani::cover!(any_syntax && any_multi, "a syntax character next to a multi-byte character");
-    kani::cover!(!any_syntax, "nothing to escape");
+    same_at!(0, 1, 2, 3, 4, 5, 6, 7, 8, 9, 10, 11, 12, 13, 14);
+    kani::cover!(nsyntax == 0, "nothing to escape");
+    kani::cover!(nsyntax == N, "every character is a syntax character");
+    kani::cover!(if N >= 2 { nsyntax >= 1 && nmulti >= 1 } else { nmulti == 1 }, "multi-byte characters (next to a syntax character when N >= 2)");
     core::mem::forget(out);
 }
 
-// @verif props=C18 tier=quick timeout=1200 unwind=14 bound="s = 1 symbolic scalar value (all of Unicode)" funcs="api::escape"
+// @verif props=C18 tier=quick timeout=1200 mem=10 unwind=3 bound="s = 1 arbitrary scalar value (all of Unicode, every UTF-8 width)" funcs="api::escape" stubs="String::with_capacity -> fixed 32-byte buffer; String::push -> same UTF-8 bytes appended without re-allocation (capacity overflow asserted)"
 #[kani::proof]
-#[kani::unwind(14)]
+#[kani::unwind(3)]
+#[kani::stub(std::string::String::push, stub_string_push)]
+#[kani::stub(std::string::String::with_capacity, stub_string_with_capacity)]
 fn c18_escape_1() {
     c18_body::<1>();
 }
 
-// @verif props=C18 tier=quick timeout=2400 unwind=14 bound="s = 2 symbolic scalar values" funcs="api::escape"
+// @verif props=C18 tier=quick timeout=1800 mem=12 unwind=4 bound="s = 2 arbitrary scalar values" funcs="api::escape" stubs="String::with_capacity -> fixed 32-byte buffer; String::push -> same UTF-8 bytes appended without re-allocation (capacity overflow asserted)"
 #[kani::proof]
-#[kani::unwind(14)]
+#[kani::unwind(4)]
+#[kani::stub(std::string::String::push, stub_string_push)]
+#[kani::stub(std::string::String::with_capacity, stub_string_with_capacity)]
 fn c18_escape_2() {
     c18_body::<2>();
+}
+
+// @verif props=C18 tier=quick timeout=3600 mem=16 unwind=5 bound="s = 3 arbitrary scalar values" funcs="api::escape" stubs="String::with_capacity -> fixed 32-byte buffer; String::push -> same UTF-8 bytes appended without re-allocation (capacity overflow asserted)"
+#[kani::proof]
+#[kani::unwind(5)]
+#[kani::stub(std::string::String::push, stub_string_push)]
+#[kani::stub(std::string::String::with_capacity, stub_string_with_capacity)]
+fn c18_escape_3() {
+    c18_body::<3>();
 }
 
 // ===========================================================================================
@@ -353,14 +423,14 @@ fn c18_escape_2() {
 use crate::insn::{CompiledRegex, Insn, StartPredicate};
 
 const SYMS: [&str; 9] = ["$", "0", "1", "2", "9", "{", "}", "a", "é"];
-const TEXT: &str = "xéyz"; // bytes: x | C3 A9 | y | z ; boundaries 0 1 3 4 5
-const BOUNDS: [usize; 5] = [0, 1, 3, 4, 5];
+const TEXT: &str = "éy"; // bytes: C3 A9 | y ; boundaries 0 2 3 (short on purpose: every copy loop is unwound to the bound)
+const BOUNDS: [usize; 3] = [0, 2, 3];
 
 fn any_text_range() -> Option<Range> {
     if kani::any() {
         let a: usize = kani::any();
         let b: usize = kani::any();
-        kani::assume(a <= b && b < 5);
+        kani::assume(a <= b && b < 3);
         Some(BOUNDS[a]..BOUNDS[b])
     } else {
         None
@@ -444,6 +514,8 @@ fn c17_body<const L: usize>() {
             _ => 9,
         }
     };
+    let mut grp = false;
+    let mut named = false;
     let mut i = 0;
     while i < L {
         let s = sym[i];
@@ -463,6 +535,7 @@ fn c17_body<const L: usize>() {
                     }
                 }
                 if let Some(r) = group(num) {
+                    grp = grp || r.start < r.end;
                     push_bytes(&mut want, &mut wl, &tx[r]);
                 }
                 i = j;
@@ -480,6 +553,7 @@ fn c17_body<const L: usize>() {
                     // ${name}: only the name "a" exists (group 1)
                     if close == i + 3 && sym[i + 2] == 7 {
                         if let Some(r) = c1.clone() {
+                            named = named || r.start < r.end;
                             push_bytes(&mut want, &mut wl, &tx[r]);
                         }
                     }
@@ -505,37 +579,52 @@ fn c17_body<const L: usize>() {
     }
     let ob = out.as_bytes();
     assert!(ob.len() == wl, "expansion has the wrong length");
-    let mut k = 0;
-    while k < 48 {
-        if k < wl {
-            assert!(ob[k] == want[k], "expansion differs from the reference");
-        }
-        k += 1;
+    assert!(wl <= 24);
+    macro_rules! same_at {
+        ($($k:expr),*) => {$(
+            if $k < wl {
+                assert!(ob[$k] == want[$k], "expansion differs from the reference");
+            }
+        )*};
     }
-    kani::cover!(wl > L * 2, "a group was expanded");
+    same_at!(0, 1, 2, 3, 4, 5, 6, 7, 8, 9, 10, 11, 12, 13, 14, 15, 16, 17, 18, 19, 20, 21, 22, 23);
+    kani::cover!(grp, "a numbered group was expanded to non-empty text");
+    kani::cover!(L < 4 || named, "a named group was expanded (needs 4 symbols)");
     kani::cover!(wl == 0, "everything expanded to nothing");
     core::mem::forget(out);
     core::mem::forget(m);
     core::mem::forget(re);
 }
 
-// @verif props=C17 tier=quick timeout=2400 unwind=12 bound="templates of 2 symbols over {$,0,1,2,9,{,},a,e-acute}; 2 groups (one named) with symbolic ranges over a 5-byte text with a multi-byte char" funcs="Regex::expand_replacement,Match::group,Match::named_group"
+// @verif props=C17 tier=quick timeout=2400 unwind=5 bound="templates of 2 symbols over {$,0,1,2,9,{,},a,e-acute}; 2 groups (one named) with symbolic ranges over the 3-byte text "e-acute y"" funcs="Regex::expand_replacement,Match::group,Match::named_group" stubs="String::{new,with_capacity,push,push_str} -> fixed 32-byte buffer model, capacity overflow asserted"
 #[kani::proof]
-#[kani::unwind(12)]
+#[kani::unwind(5)]
+#[kani::stub(std::string::String::push, stub_string_push)]
+#[kani::stub(std::string::String::push_str, stub_string_push_str)]
+#[kani::stub(std::string::String::with_capacity, stub_string_with_capacity)]
+#[kani::stub(std::string::String::new, stub_string_new)]
 fn c17_expand_2() {
     c17_body::<2>();
 }
 
-// @verif props=C17 tier=thorough timeout=5400 mem=20 unwind=12 bound="templates of 3 symbols over {$,0,1,2,9,{,},a,e-acute}; 2 groups" funcs="Regex::expand_replacement,Match::group,Match::named_group"
+// @verif props=C17 tier=thorough timeout=5400 mem=20 unwind=6 bound="templates of 3 symbols over {$,0,1,2,9,{,},a,e-acute}; 2 groups" funcs="Regex::expand_replacement,Match::group,Match::named_group" stubs="String::{new,with_capacity,push,push_str} -> fixed 32-byte buffer model, capacity overflow asserted"
 #[kani::proof]
-#[kani::unwind(12)]
+#[kani::unwind(6)]
+#[kani::stub(std::string::String::push, stub_string_push)]
+#[kani::stub(std::string::String::push_str, stub_string_push_str)]
+#[kani::stub(std::string::String::with_capacity, stub_string_with_capacity)]
+#[kani::stub(std::string::String::new, stub_string_new)]
 fn c17_expand_3() {
     c17_body::<3>();
 }
 
-// @verif props=C17 tier=thorough timeout=5400 mem=30 unwind=14 bound="templates of 4 symbols (reaches ${a} and $$$1)" funcs="Regex::expand_replacement,Match::group,Match::named_group"
+// @verif props=C17 tier=thorough timeout=5400 mem=30 unwind=7 bound="templates of 4 symbols (reaches ${a} and $$$1)" funcs="Regex::expand_replacement,Match::group,Match::named_group" stubs="String::{new,with_capacity,push,push_str} -> fixed 32-byte buffer model, capacity overflow asserted"
 #[kani::proof]
-#[kani::unwind(14)]
+#[kani::unwind(7)]
+#[kani::stub(std::string::String::push, stub_string_push)]
+#[kani::stub(std::string::String::push_str, stub_string_push_str)]
+#[kani::stub(std::string::String::with_capacity, stub_string_with_capacity)]
+#[kani::stub(std::string::String::new, stub_string_new)]
 fn c17_expand_4() {
     c17_body::<4>();
 }
@@ -564,8 +653,12 @@ mod eng {
     }
 
     pub fn any_hay() -> Hay {
+        any_hay_upto(NMAX)
+    }
+
+    pub fn any_hay_upto(nmax: usize) -> Hay {
         let n: usize = kani::any();
-        kani::assume(n <= NMAX);
+        kani::assume(n <= nmax && n <= NMAX);
         let mut buf = [0u8; BYTES];
         let mut off = [0usize; NMAX + 1];
         let mut at = 0usize;
@@ -593,7 +686,7 @@ mod eng {
     ) -> Option<Input::Position> {
         if ip != 0 {
             unsafe {
-                vo::VERIF_ORACLE_CALLS_OK = false;
+                vo::mark_bad();
             }
         }
         vo::lookup(&inp, pos)
@@ -630,9 +723,9 @@ mod eng {
             i += 1;
         }
         unsafe {
-            vo::VERIF_ORACLE_HAYLEN = hy.len;
-            vo::VERIF_ORACLE_CALLS_OK = true;
-            vo::VERIF_ORACLE_ACTIVE = true;
+            vo::set_haylen(hy.len);
+            vo::reset_calls();
+            vo::set_active();
         }
     }
 
@@ -676,14 +769,9 @@ mod eng {
         }
     }
 
-    // @verif props=C20 tier=quick builds=pattern sub=eng timeout=3000 unwind=11 bound="haystack <= 2 symbolic scalars, arbitrary engine table, next() until Done (<= 2*chars+4 steps)" funcs="RegexSearcher::next,Regex::find_from,<&Regex as Pattern>::into_searcher,exec::Matches::next,BacktrackExecutor::next_match"
-    // @verif stubs="MatchAttempter::try_at_pos -> arbitrary deterministic table END[offset]"
-    #[kani::proof]
-    #[kani::unwind(11)]
-    #[kani::stub(crate::classicalbacktrack::MatchAttempter::try_at_pos, stub_try_at_pos)]
     #[cfg(feature = "pattern")]
-    fn c20_searcher_forward() {
-        let hy = any_hay();
+    fn c20_forward_body(nmax: usize) {
+        let hy = any_hay_upto(nmax);
         let text: &str = unsafe { core::str::from_utf8_unchecked(&hy.buf[..hy.len]) };
         any_oracle(&hy);
         let re = mk_regex();
@@ -694,7 +782,8 @@ mod eng {
         let mut done = false;
         let mut nmatch = 0usize;
         let mut step = 0;
-        while step < 2 * NMAX + 5 {
+        // the longest stream is Match(0,0) Reject(0,1) Match(1,1) ... Match(n,n) Done: 2n+2 calls
+        while step < 2 * nmax + 3 {
             let st = s.next();
             match st {
                 SearchStep::Done => {
@@ -729,28 +818,24 @@ mod eng {
             }
             step += 1;
         }
-        assert!(done, "searcher must finish within 2*chars+5 steps");
+        assert!(done, "searcher must finish within 2*chars+3 steps");
         kani::cover!(nmatch >= 2, "two matches");
-        kani::cover!(nmatch == hy.n + 1 && hy.n >= 2, "empty match at every position");
+        kani::cover!(nmatch == hy.n + 1 && hy.n >= 1, "empty match at every position");
         core::mem::forget(re);
     }
 
-    // @verif props=C20 tier=quick builds=pattern sub=eng timeout=3000 unwind=11 bound="haystack <= 2 symbolic scalars, arbitrary engine table, next_back() until Done" funcs="RegexSearcher::next_back,find_last_match_before,Regex::find_from"
-    // @verif stubs="MatchAttempter::try_at_pos -> arbitrary deterministic table END[offset]"
-    #[kani::proof]
-    #[kani::unwind(11)]
-    #[kani::stub(crate::classicalbacktrack::MatchAttempter::try_at_pos, stub_try_at_pos)]
     #[cfg(feature = "pattern")]
-    fn c20_searcher_backward() {
-        let hy = any_hay();
+    fn c20_backward_body(nmax: usize) {
+        let hy = any_hay_upto(nmax);
         let text: &str = unsafe { core::str::from_utf8_unchecked(&hy.buf[..hy.len]) };
         any_oracle(&hy);
         let re = mk_regex();
         let mut s = (&re).into_searcher(text);
         let mut at = hy.len; // where the next (earlier) step must END
         let mut done = false;
+        let mut nmatch = 0usize;
         let mut step = 0;
-        while step < 2 * NMAX + 5 {
+        while step < 2 * nmax + 3 {
             match s.next_back() {
                 SearchStep::Done => {
                     if !done {
@@ -770,22 +855,67 @@ mod eng {
                     at = a;
                     if is_match {
                         assert!(unsafe { vo::VERIF_ORACLE_END[a] } == Some(b), "a reported match is a match of the engine");
+                        nmatch += 1;
                     } else {
-                        assert!(a < b);
+                        assert!(a < b, "an empty Reject is useless and stalls callers");
                     }
                 }
             }
             step += 1;
         }
-        assert!(done);
-        kani::cover!(done && hy.n >= 2, "finished on a two-character haystack");
+        assert!(done, "reverse searcher must finish within 2*chars+3 steps");
+        kani::cover!(done && hy.n >= 1 && nmatch >= 2, "two matches found from the back");
         core::mem::forget(re);
+    }
+
+    // @verif props=C20 tier=quick builds=pattern_index sub=eng timeout=3000 mem=16 unwind=6 bound="haystack <= 1 symbolic scalar (1-4 bytes), arbitrary engine table, next() until Done (<= 5 calls)" funcs="RegexSearcher::next,Regex::find_from,<&Regex as Pattern>::into_searcher,exec::Matches::next,BacktrackExecutor::next_match"
+    // @verif stubs="MatchAttempter::try_at_pos -> arbitrary deterministic table END[offset]; BacktrackExecutor::successful_match -> Match{range, no captures, no names} (the regex has no groups)"
+    #[kani::proof]
+    #[kani::unwind(6)]
+    #[kani::stub(crate::classicalbacktrack::MatchAttempter::try_at_pos, stub_try_at_pos)]
+    #[kani::stub(crate::classicalbacktrack::BacktrackExecutor::successful_match, crate::classicalbacktrack::verif_model::successful_match_model)]
+    #[cfg(feature = "pattern")]
+    fn c20_searcher_forward() {
+        c20_forward_body(1);
+    }
+
+    // @verif props=C20 tier=thorough builds=pattern_index sub=eng timeout=7200 mem=24 unwind=8 bound="haystack <= 2 symbolic scalars, arbitrary engine table, next() until Done (<= 7 calls)" funcs="RegexSearcher::next,Regex::find_from,<&Regex as Pattern>::into_searcher,exec::Matches::next,BacktrackExecutor::next_match"
+    // @verif stubs="MatchAttempter::try_at_pos -> arbitrary deterministic table END[offset]; BacktrackExecutor::successful_match -> Match{range, no captures, no names} (the regex has no groups)"
+    #[kani::proof]
+    #[kani::unwind(8)]
+    #[kani::stub(crate::classicalbacktrack::MatchAttempter::try_at_pos, stub_try_at_pos)]
+    #[kani::stub(crate::classicalbacktrack::BacktrackExecutor::successful_match, crate::classicalbacktrack::verif_model::successful_match_model)]
+    #[cfg(feature = "pattern")]
+    fn c20_searcher_forward_n2() {
+        c20_forward_body(2);
+    }
+
+    // @verif props=C20 tier=quick builds=pattern_index sub=eng timeout=3000 mem=16 unwind=6 bound="haystack <= 1 symbolic scalar, arbitrary engine table, next_back() until Done (<= 5 calls)" funcs="RegexSearcher::next_back,RegexSearcher::next,Regex::find_from"
+    // @verif stubs="MatchAttempter::try_at_pos -> arbitrary deterministic table END[offset]; BacktrackExecutor::successful_match -> Match{range, no captures, no names} (the regex has no groups)"
+    #[kani::proof]
+    #[kani::unwind(6)]
+    #[kani::stub(crate::classicalbacktrack::MatchAttempter::try_at_pos, stub_try_at_pos)]
+    #[kani::stub(crate::classicalbacktrack::BacktrackExecutor::successful_match, crate::classicalbacktrack::verif_model::successful_match_model)]
+    #[cfg(feature = "pattern")]
+    fn c20_searcher_backward() {
+        c20_backward_body(1);
+    }
+
+    // @verif props=C20 tier=thorough builds=pattern_index sub=eng timeout=7200 mem=24 unwind=8 bound="haystack <= 2 symbolic scalars, arbitrary engine table, next_back() until Done (<= 7 calls)" funcs="RegexSearcher::next_back,RegexSearcher::next,Regex::find_from"
+    // @verif stubs="MatchAttempter::try_at_pos -> arbitrary deterministic table END[offset]; BacktrackExecutor::successful_match -> Match{range, no captures, no names} (the regex has no groups)"
+    #[kani::proof]
+    #[kani::unwind(8)]
+    #[kani::stub(crate::classicalbacktrack::MatchAttempter::try_at_pos, stub_try_at_pos)]
+    #[kani::stub(crate::classicalbacktrack::BacktrackExecutor::successful_match, crate::classicalbacktrack::verif_model::successful_match_model)]
+    #[cfg(feature = "pattern")]
+    fn c20_searcher_backward_n2() {
+        c20_backward_body(2);
     }
 
     // C17-H2: replace_all / replace_all_with / replace / replace_with are splices over the find_iter
     // sequence.  Engine = arbitrary deterministic table; replacement = the constant "#".
-    fn c17_splice_body(all: bool, template: bool) {
-        let hy = any_hay();
+    fn c17_splice_body(all: bool, template: bool, nmax: usize) {
+        let hy = any_hay_upto(nmax);
         let text: &str = unsafe { core::str::from_utf8_unchecked(&hy.buf[..hy.len]) };
         any_oracle(&hy);
         let re = mk_regex();
@@ -802,7 +932,7 @@ mod eng {
         let mut cursor: Option<usize> = Some(0);
         let mut nm = 0usize;
         let mut k = 0;
-        while k < NMAX + 2 {
+        while k < nmax + 2 {
             let m = match cursor {
                 None => None,
                 Some(c) => model_first(&hy, c),
@@ -834,53 +964,131 @@ mod eng {
         }
         let gb = got.as_bytes();
         assert!(gb.len() == wl, "spliced result has the wrong length");
-        let mut i = 0;
-        while i < 16 {
-            if i < wl {
-                assert!(gb[i] == want[i], "spliced result differs from the model");
-            }
-            i += 1;
+        assert!(wl <= 11); // <= 8 haystack bytes and <= 3 matches
+        macro_rules! same_at {
+            ($($k:expr),*) => {$(
+                if $k < wl {
+                    assert!(gb[$k] == want[$k], "spliced result differs from the model");
+                }
+            )*};
         }
-        kani::cover!(nm >= 2, "two replacements");
+        same_at!(0, 1, 2, 3, 4, 5, 6, 7, 8, 9, 10);
+        kani::cover!(if all { nm >= 2 } else { nm == 1 && copied < hy.len }, "two replacements (replace: one, with text after it)");
         kani::cover!(nm == 0 && hy.len > 0, "no match: haystack returned unchanged");
         kani::cover!(nm == 1 && wl == hy.len + 1, "a single empty match");
         core::mem::forget(got);
         core::mem::forget(re);
     }
 
-    // @verif props=C17 tier=quick sub=eng timeout=3000 unwind=11 bound="replace_all with a constant template over a haystack of <= 3 symbolic scalars and an arbitrary engine table" funcs="Regex::replace_all,find_iter,exec::Matches::next,expand_replacement"
-    // @verif stubs="MatchAttempter::try_at_pos -> arbitrary deterministic table END[offset]"
+    // @verif props=C17 tier=quick builds=index sub=eng timeout=3000 mem=12 unwind=7 bound="replace_all: constant replacement '#', haystack <= 1 symbolic scalar value(s), arbitrary engine table" funcs="Regex::replace_all,find_iter,exec::Matches::next,expand_replacement"
+    // @verif stubs="MatchAttempter::try_at_pos -> arbitrary deterministic table END[offset]; BacktrackExecutor::successful_match -> Match{range, no captures, no names} (the regex has no groups); String::{new,with_capacity,push,push_str} -> fixed 32-byte buffer model, capacity overflow asserted"
     #[kani::proof]
-    #[kani::unwind(11)]
+    #[kani::unwind(7)]
+    #[kani::stub(std::string::String::push, super::stub_string_push)]
+    #[kani::stub(std::string::String::push_str, super::stub_string_push_str)]
+    #[kani::stub(std::string::String::with_capacity, super::stub_string_with_capacity)]
+    #[kani::stub(std::string::String::new, super::stub_string_new)]
     #[kani::stub(crate::classicalbacktrack::MatchAttempter::try_at_pos, stub_try_at_pos)]
+    #[kani::stub(crate::classicalbacktrack::BacktrackExecutor::successful_match, crate::classicalbacktrack::verif_model::successful_match_model)]
     fn c17_splice_replace_all() {
-        c17_splice_body(true, true);
+        c17_splice_body(true, true, 1);
     }
 
-    // @verif props=C17 tier=quick sub=eng timeout=3000 unwind=11 bound="replace_all_with (constant closure), haystack <= 2 symbolic scalars, arbitrary engine table" funcs="Regex::replace_all_with,find_iter"
-    // @verif stubs="MatchAttempter::try_at_pos -> arbitrary deterministic table END[offset]"
+    // @verif props=C17 tier=quick builds=index sub=eng timeout=3000 mem=12 unwind=7 bound="replace_all_with: constant replacement '#', haystack <= 1 symbolic scalar value(s), arbitrary engine table" funcs="Regex::replace_all_with,find_iter,exec::Matches::next"
+    // @verif stubs="MatchAttempter::try_at_pos -> arbitrary deterministic table END[offset]; BacktrackExecutor::successful_match -> Match{range, no captures, no names} (the regex has no groups); String::{new,with_capacity,push,push_str} -> fixed 32-byte buffer model, capacity overflow asserted"
     #[kani::proof]
-    #[kani::unwind(11)]
+    #[kani::unwind(7)]
+    #[kani::stub(std::string::String::push, super::stub_string_push)]
+    #[kani::stub(std::string::String::push_str, super::stub_string_push_str)]
+    #[kani::stub(std::string::String::with_capacity, super::stub_string_with_capacity)]
+    #[kani::stub(std::string::String::new, super::stub_string_new)]
     #[kani::stub(crate::classicalbacktrack::MatchAttempter::try_at_pos, stub_try_at_pos)]
+    #[kani::stub(crate::classicalbacktrack::BacktrackExecutor::successful_match, crate::classicalbacktrack::verif_model::successful_match_model)]
     fn c17_splice_replace_all_with() {
-        c17_splice_body(true, false);
+        c17_splice_body(true, false, 1);
     }
 
-    // @verif props=C17 tier=quick sub=eng timeout=3000 unwind=11 bound="replace (first match only), haystack <= 2 symbolic scalars, arbitrary engine table" funcs="Regex::replace,find"
-    // @verif stubs="MatchAttempter::try_at_pos -> arbitrary deterministic table END[offset]"
+    // @verif props=C17 tier=quick builds=index sub=eng timeout=3000 mem=12 unwind=7 bound="replace: constant replacement '#', haystack <= 1 symbolic scalar value(s), arbitrary engine table" funcs="Regex::replace,find,expand_replacement"
+    // @verif stubs="MatchAttempter::try_at_pos -> arbitrary deterministic table END[offset]; BacktrackExecutor::successful_match -> Match{range, no captures, no names} (the regex has no groups); String::{new,with_capacity,push,push_str} -> fixed 32-byte buffer model, capacity overflow asserted"
     #[kani::proof]
-    #[kani::unwind(11)]
+    #[kani::unwind(7)]
+    #[kani::stub(std::string::String::push, super::stub_string_push)]
+    #[kani::stub(std::string::String::push_str, super::stub_string_push_str)]
+    #[kani::stub(std::string::String::with_capacity, super::stub_string_with_capacity)]
+    #[kani::stub(std::string::String::new, super::stub_string_new)]
     #[kani::stub(crate::classicalbacktrack::MatchAttempter::try_at_pos, stub_try_at_pos)]
+    #[kani::stub(crate::classicalbacktrack::BacktrackExecutor::successful_match, crate::classicalbacktrack::verif_model::successful_match_model)]
     fn c17_splice_replace() {
-        c17_splice_body(false, true);
+        c17_splice_body(false, true, 1);
     }
 
-    // @verif props=C17 tier=thorough sub=eng timeout=3000 unwind=11 bound="replace_with (first match only, constant closure)" funcs="Regex::replace_with,find"
-    // @verif stubs="MatchAttempter::try_at_pos -> arbitrary deterministic table END[offset]"
+    // @verif props=C17 tier=quick builds=index sub=eng timeout=3000 mem=12 unwind=7 bound="replace_with: constant replacement '#', haystack <= 1 symbolic scalar value(s), arbitrary engine table" funcs="Regex::replace_with,find"
+    // @verif stubs="MatchAttempter::try_at_pos -> arbitrary deterministic table END[offset]; BacktrackExecutor::successful_match -> Match{range, no captures, no names} (the regex has no groups); String::{new,with_capacity,push,push_str} -> fixed 32-byte buffer model, capacity overflow asserted"
     #[kani::proof]
-    #[kani::unwind(11)]
+    #[kani::unwind(7)]
+    #[kani::stub(std::string::String::push, super::stub_string_push)]
+    #[kani::stub(std::string::String::push_str, super::stub_string_push_str)]
+    #[kani::stub(std::string::String::with_capacity, super::stub_string_with_capacity)]
+    #[kani::stub(std::string::String::new, super::stub_string_new)]
     #[kani::stub(crate::classicalbacktrack::MatchAttempter::try_at_pos, stub_try_at_pos)]
+    #[kani::stub(crate::classicalbacktrack::BacktrackExecutor::successful_match, crate::classicalbacktrack::verif_model::successful_match_model)]
     fn c17_splice_replace_with() {
-        c17_splice_body(false, false);
+        c17_splice_body(false, false, 1);
+    }
+
+    // @verif props=C17 tier=thorough builds=index sub=eng timeout=7200 mem=24 unwind=10 bound="replace_all: constant replacement '#', haystack <= 2 symbolic scalar value(s), arbitrary engine table" funcs="Regex::replace_all,find_iter,exec::Matches::next,expand_replacement"
+    // @verif stubs="MatchAttempter::try_at_pos -> arbitrary deterministic table END[offset]; BacktrackExecutor::successful_match -> Match{range, no captures, no names} (the regex has no groups); String::{new,with_capacity,push,push_str} -> fixed 32-byte buffer model, capacity overflow asserted"
+    #[kani::proof]
+    #[kani::unwind(10)]
+    #[kani::stub(std::string::String::push, super::stub_string_push)]
+    #[kani::stub(std::string::String::push_str, super::stub_string_push_str)]
+    #[kani::stub(std::string::String::with_capacity, super::stub_string_with_capacity)]
+    #[kani::stub(std::string::String::new, super::stub_string_new)]
+    #[kani::stub(crate::classicalbacktrack::MatchAttempter::try_at_pos, stub_try_at_pos)]
+    #[kani::stub(crate::classicalbacktrack::BacktrackExecutor::successful_match, crate::classicalbacktrack::verif_model::successful_match_model)]
+    fn c17_splice_replace_all_n2() {
+        c17_splice_body(true, true, 2);
+    }
+
+    // @verif props=C17 tier=thorough builds=index sub=eng timeout=7200 mem=24 unwind=10 bound="replace_all_with: constant replacement '#', haystack <= 2 symbolic scalar value(s), arbitrary engine table" funcs="Regex::replace_all_with,find_iter,exec::Matches::next"
+    // @verif stubs="MatchAttempter::try_at_pos -> arbitrary deterministic table END[offset]; BacktrackExecutor::successful_match -> Match{range, no captures, no names} (the regex has no groups); String::{new,with_capacity,push,push_str} -> fixed 32-byte buffer model, capacity overflow asserted"
+    #[kani::proof]
+    #[kani::unwind(10)]
+    #[kani::stub(std::string::String::push, super::stub_string_push)]
+    #[kani::stub(std::string::String::push_str, super::stub_string_push_str)]
+    #[kani::stub(std::string::String::with_capacity, super::stub_string_with_capacity)]
+    #[kani::stub(std::string::String::new, super::stub_string_new)]
+    #[kani::stub(crate::classicalbacktrack::MatchAttempter::try_at_pos, stub_try_at_pos)]
+    #[kani::stub(crate::classicalbacktrack::BacktrackExecutor::successful_match, crate::classicalbacktrack::verif_model::successful_match_model)]
+    fn c17_splice_replace_all_with_n2() {
+        c17_splice_body(true, false, 2);
+    }
+
+    // @verif props=C17 tier=thorough builds=index sub=eng timeout=7200 mem=24 unwind=10 bound="replace: constant replacement '#', haystack <= 2 symbolic scalar value(s), arbitrary engine table" funcs="Regex::replace,find,expand_replacement"
+    // @verif stubs="MatchAttempter::try_at_pos -> arbitrary deterministic table END[offset]; BacktrackExecutor::successful_match -> Match{range, no captures, no names} (the regex has no groups); String::{new,with_capacity,push,push_str} -> fixed 32-byte buffer model, capacity overflow asserted"
+    #[kani::proof]
+    #[kani::unwind(10)]
+    #[kani::stub(std::string::String::push, super::stub_string_push)]
+    #[kani::stub(std::string::String::push_str, super::stub_string_push_str)]
+    #[kani::stub(std::string::String::with_capacity, super::stub_string_with_capacity)]
+    #[kani::stub(std::string::String::new, super::stub_string_new)]
+    #[kani::stub(crate::classicalbacktrack::MatchAttempter::try_at_pos, stub_try_at_pos)]
+    #[kani::stub(crate::classicalbacktrack::BacktrackExecutor::successful_match, crate::classicalbacktrack::verif_model::successful_match_model)]
+    fn c17_splice_replace_n2() {
+        c17_splice_body(false, true, 2);
+    }
+
+    // @verif props=C17 tier=thorough builds=index sub=eng timeout=7200 mem=24 unwind=10 bound="replace_with: constant replacement '#', haystack <= 2 symbolic scalar value(s), arbitrary engine table" funcs="Regex::replace_with,find"
+    // @verif stubs="MatchAttempter::try_at_pos -> arbitrary deterministic table END[offset]; BacktrackExecutor::successful_match -> Match{range, no captures, no names} (the regex has no groups); String::{new,with_capacity,push,push_str} -> fixed 32-byte buffer model, capacity overflow asserted"
+    #[kani::proof]
+    #[kani::unwind(10)]
+    #[kani::stub(std::string::String::push, super::stub_string_push)]
+    #[kani::stub(std::string::String::push_str, super::stub_string_push_str)]
+    #[kani::stub(std::string::String::with_capacity, super::stub_string_with_capacity)]
+    #[kani::stub(std::string::String::new, super::stub_string_new)]
+    #[kani::stub(crate::classicalbacktrack::MatchAttempter::try_at_pos, stub_try_at_pos)]
+    #[kani::stub(crate::classicalbacktrack::BacktrackExecutor::successful_match, crate::classicalbacktrack::verif_model::successful_match_model)]
+    fn c17_splice_replace_with_n2() {
+        c17_splice_body(false, false, 2);
     }
 }
